@@ -261,7 +261,13 @@ def main(argv=None):
 
         nviol, known_keys = report(pid, mod, res, known, minimise=True)
         if not pick_samples(res):
-            raise HarnessError('no sample cases were recorded (evidence would be invalid)')
+            if nviol:
+                # every case failed before it could be classified: the failing cases are the
+                # samples (a violation must be reported as such, exit 1)
+                for key, recs in sorted(res.failures.items())[:3]:
+                    res.label('violating-case', recs[0]['case'])
+            else:
+                raise HarnessError('no sample cases were recorded (evidence would be invalid)')
         if nviol == 0:
             # generator sanity is only meaningful when no unlisted failure cut cases short
             for lab in plan.get('required_classes', []):
